@@ -691,7 +691,7 @@ def norm_prop(rec: dict, ver: str) -> dict:
     return d
 
 
-def make_world(layout: str, origin_vertex: bool = False) -> dict:
+def make_world(layout: str, origin_vertex: bool = False, variants: bool = True) -> dict:
     lay = LAYOUTS[layout]
     vit = layout == 'vitamin'
     frac = 0.5 if lay['bounds'] == 'f' else 0  # Chaos stores node/leaf bounds as floats
@@ -706,6 +706,11 @@ def make_world(layout: str, origin_vertex: bool = False) -> dict:
         {'s': [0.0, 0.5, 0.0, -8.0], 't': [0.0, 0.0, -0.5, 0.0], 'ls': [0.0, 0.03125, 0.0, 0.5], 'lt': [0.0, 0.0, -0.03125, 0.25], 'flags': 0x0410, 'td': 1},
         {'s': [1.0, 0.0, 0.0, 0.0], 't': [0.0, 1.0, 0.0, 0.0], 'ls': [0.0, 0.0, 0.0, -99999.0], 'lt': [0.0, 0.0, 0.0, -99999.0], 'flags': 0x0080, 'td': 1},
     ]
+    if layout == 'l4d2' and variants:
+        # two texdata records for ONE material with different reflectivity and size (a tool patched the size used by some faces):
+        # each texinfo keeps the record it points at
+        w['texdata'].append({'mat': 'brick/Wall01', 'refl': [0.5, 0.5, 0.5], 'w': 128, 'h': 64})
+        w['texinfo'].append({'s': [0.5, 0.0, 0.0, 0.0], 't': [0.0, 0.5, 0.0, 0.0], 'ls': [0.125, 0.0, 0.0, 0.0], 'lt': [0.0, 0.125, 0.0, 0.0], 'flags': 0, 'td': 2})
     w['planes'] = [{'n': [0.0, 0.0, 1.0], 'd': 0.0, 't': 2}, {'n': [1.0, 0.0, 0.0], 'd': 64.0, 't': 0},
                    {'n': [0.0, 1.0, 0.0], 'd': -64.0, 't': 1}, {'n': [0.5, 0.75, 0.25], 'd': 12.5, 't': 4},
                    # the type field is stored data: a 45-degree plane (tie), a nearly axial one, and a non-canonical value
@@ -745,6 +750,11 @@ def make_world(layout: str, origin_vertex: bool = False) -> dict:
                   face(3, 6, 3, 1, 1, [1], side=True, on_node=False, hid=77, fog=2, area=0.5, disp=3, vflags=255)]
     if not vit:
         w['hdr_faces'] = [dict(f, lmoff=f['lmoff'] + 4096) for f in w['faces']]
+    if layout == 'infra' and variants:
+        # a map compiled without original faces (the lump is empty, every face's original-face index is -1)
+        w['orig_faces'] = []
+        for f in w['faces'] + w['hdr_faces']:
+            f['orig'] = None
     if layout == 'v20':
         w['hdr_faces'] = []          # an LDR-only map: face IDs present, no HDR faces (the face-ID lump is shared by both views)
 
@@ -763,7 +773,8 @@ def make_world(layout: str, origin_vertex: bool = False) -> dict:
 
     w['visleafs'] = [leaf(1, -1, 0, 0, [0, 0, 0], [0, 0, 0], [], [0], -1, 65535),
                      leaf(0, 0, 1, 0x05, [-64, -64, -8], [64, 64, 128], [0, 1], [0, 1], -1, 12, amb),
-                     leaf(0x20, 1, 3, 0x42, [-64, -64, -128], [64, 64, -8], [2], [], 0, 0, amb)]
+                     # area numbers up to the width of the field: 15 bits in the Chaos layout, 255 fits every other one
+                     leaf(0x20, 1, 600 if layout == 'chaos' else 255 if layout in ('v21', 'v19') else 3, 0x42, [-64, -64, -128], [64, 64, -8], [2], [], 0, 0, amb)]
     bmin = [(abs(x) if sgn > 0 and False else x) + frac for x in [-64, -64, -128]]
     w['nodes'] = [{'plane': 0, 'mins': bmin, 'maxes': [64 + frac, 64 + frac, 128 + frac], 'faces': [0, 1], 'area': 0, 'neg': ['n', 1], 'pos': ['l', 0]},
                   {'plane': 1, 'mins': bmin, 'maxes': [64 + frac, 64 + frac, -8 + frac], 'faces': [2], 'area': 1, 'neg': ['l', 1], 'pos': ['l', 2]}]
